@@ -112,7 +112,7 @@ class AliasClass:
             for e in fn_exprs(f):
                 if self.primitive(f, e):
                     prim = True
-                if e.get('k') == 'call' and e.get('clsp') == self.cls and e.get('obj') is not None and is_this_obj(e):
+                if e.get('k') == 'call' and (e.get('clsp') == self.cls or e.get('pq') in self.extra) and (e.get('obj') is None or is_this_obj(e)) and (e.get('obj') is not None or e.get('pq') in self.extra):
                     calls.add(e.get('pq'))
             body_calls.setdefault(f['pq'], set()).update(calls)
             if prim:
@@ -132,6 +132,9 @@ class AliasClass:
         if self.primitive(f, e):
             return True
         if e.get('k') == 'call' and e.get('clsp') == self.cls and e.get('pq') in self.inv and e.get('obj') is not None and is_this_obj(e):
+            return True
+        # an invalidating member of a base class (named in extra_invalidators) called on this object, explicitly or implicitly
+        if e.get('k') == 'call' and e.get('pq') in self.extra and e.get('clsp') != self.cls and (e.get('obj') is None or is_this_obj(e)):
             return True
         return False
 
